@@ -92,6 +92,67 @@ PROPS = {
     ),
 }
 
+PROPS.update({
+    "C01": dict(
+        level_text="Exploration with one exhaustively enumerated sub-space: every file of length <= 3 (4 in the thorough tier) goes through expand/recreate (and a sixty-fourth of them through the zstd pair); assembled container files with embedded streams from five sources, two junk flavours, the named edge-case shapes, mutations and the repository's own samples are judged by the identity oracle.",
+        design_ref="DESIGN.md §5 C01",
+        level_note="Files >= 4 GiB (the edge of the stated domain) are not generated. The independent container parser and scan_spans are diagnosis only.",
+        technique="runtime monitoring: round-trip identity oracle over exhaustive tiny files and assembled/mutated container files",
+        level="exploration",
+        rule="every byte string of length <= 3 (= 4 in the thorough tier) completely; edge-case assemblers; files assembled "
+             "from 0-4 streams (four compressors + independent generator) behind zlib/gzip/zip/PNG wrappers between clean or "
+             "hostile junk, each followed by 0-3 cumulative mutations; repo samples and mutants. evaluations = files judged "
+             "(expand + recreate, most also through the zstd pair). non-trivial = sampled file containing at least one signature "
+             "position of the scanner or expanding to at least one non-literal chunk, distinct by content hash; enumerated tiny "
+             "files are reported separately (tiny_files_enumerated)",
+        assumptions=COMMON_ASSUME + ["zstd (the crate's own dependency) is trusted to be lossless"],
+        min_evaluations=1000,
+        exhaustive_key=("tiny_files_enumerated",
+                        {"quick": 16843009, "thorough": 16843009 + (1 << 32)},
+                        {"quick": "all 16,843,009 files of length <= 3", "thorough": "all files of length <= 4"}),
+    ),
+    "C06": dict(
+        level_text="Exploration by runtime monitoring: for streams that satisfy the premise (accepted alone with verify=true, plaintext > 1024 bytes), every wrapper kind with randomised header variants, junk flavours and prefix/suffix lengths is expanded and the plaintext searched for in the expansion.",
+        design_ref="DESIGN.md §5 C06",
+        level_note="The premise about surrounding bytes is decided with the scan_spans hook: only a stream that starts in the bytes in front of the wrapper and overlaps S excuses a miss.",
+        technique="runtime monitoring: substring oracle on the expansion of wrapped streams, premise-checked",
+        level="exploration",
+        rule="one premise-satisfying stream per case x 4 wrapper kinds (zlib 4 header bytes; gzip 16 optional-field subsets "
+             "with random field contents; ZIP name/extra lengths 0..300, data descriptor, central directory; PNG 1-8 IDAT "
+             "chunks with/without envelope) x clean/hostile junk x prefix/suffix lengths 0..4096. evaluations = files expanded. "
+             "non-trivial = premise holds and the plaintext does not already occur verbatim in the file, distinct by content hash",
+        assumptions=COMMON_ASSUME,
+        min_evaluations=200,
+    ),
+    "C11": dict(
+        level_text="Exploration by runtime monitoring: for each generated file the exact boundary |expand(F)| is computed and decompress_zstd is called with capacities on both sides of it and with inputs that are not complete zstd frames.",
+        design_ref="DESIGN.md §5 C11",
+        level_note="Absurd capacities are not generated (they only test the allocator). Bit-flipped valid frames are outside the statement.",
+        technique="runtime monitoring: boundary oracle on capacity sweeps and non-frame inputs",
+        level="exploration",
+        rule="files from the C01 assembler (incl. edge cases, noise, mutants) x capacities {0, 1, size/2, size-1, size, size+1, "
+             "size+k, 2*size, occasionally 128 MiB} where size = |expand(F)|, plus non-frames {empty, the file itself, noise, "
+             "three truncations of the frame, frame without last byte, frame without magic}. evaluations = decompress_zstd "
+             "calls judged. non-trivial = file whose compress_zstd succeeded and whose whole sweep ran, distinct by content hash",
+        assumptions=COMMON_ASSUME + ["|expand(F)| is deterministic (C14)"],
+        min_evaluations=500,
+    ),
+    "C13": dict(
+        level_text="Fault enumeration by runtime monitoring: instrumented Read/Write objects fragment I/O in many patterns and inject one error at each structural offset of each container (every offset of containers up to 16 KiB in the thorough tier), for five error kinds plus Interrupted and zero-length writes.",
+        design_ref="DESIGN.md §5 C13",
+        level_note="ErrorKind::Interrupted may legitimately be retried (read_exact/write_all) or surfaced (the one-byte end probe): only panics and wrong bytes are violations for it.",
+        technique="runtime monitoring with fault injection: instrumented Read/Write, prefix oracle on the sink",
+        level="fault_enumeration",
+        rule="containers = expand(F) for assembled files (all three chunk kinds, literal chunks > 64 KiB, multi-chunk PNG, edge "
+             "cases). per container: 36 read x write fragmentation patterns without fault; a read fault at every structural "
+             "offset (tag, varints, first/last payload and correction byte, EOF probe) + random offsets, a write fault at chunk "
+             "boundaries + random offsets; thorough: every offset for containers/files <= 16 KiB. evaluations = reconstruction "
+             "attempts. non-trivial = container whose plain round trip holds, distinct by content hash",
+        assumptions=COMMON_ASSUME,
+        min_evaluations=500,
+    ),
+})
+
 
 def post_process(pid, counters, extras, run, replays):
     out = {}
